@@ -12,6 +12,7 @@ DOC = {
                    'the visited set is consulted only under --follow-links and the hidden test looks at the first character of the file name (R4); relative path patterns are '
                    'anchored at the base directory (R5). Conservative pruning itself is C16; unreadable entries are C15.',
     'rules': {
+        'C09.M': __import__('fcverif.rules.common', fromlist=['MANDATORY_TEXT']).MANDATORY_TEXT,
         'C09.R1': 'visit_dir: skip iff level - initial_level >= depth; children are visited at level + 1; roots at a constant initial level',
         'C09.R2': 'size filter: len >= min_size && len <= max_size (max defaults to FileLen::MAX)',
         'C09.R3': 'visit_file: consumer called iff matches_full_path; matches_full_path = (names empty or any name matches) and (paths empty or any path matches) and no exclude matches; matches_dir = (paths empty or any partial match) and no exclude prefix-matches; names are not consulted for directories',
@@ -35,6 +36,8 @@ def run(ctx):
     r4(ctx)
     r5(ctx)
     r67(ctx)
+    from .common import run_mandatory
+    run_mandatory(ctx, 'C09')
 
 
 def r1(ctx):
